@@ -128,6 +128,11 @@ _ST = dict(ns_h=['/', '/a'], ns_all=['/', '/a'],
            alpha='state')
 CONFIGS['cstate_fn'] = dict(_ST, hkind='fn')
 CONFIGS['cstate_class'] = dict(_ST, hkind='class')
+# connect() without a namespace list, on a client whose namespaces have
+# function handlers AND a class-based handler object
+CONFIGS['cstate_implicit'] = dict(_ST, hkind='fn', also_class=True,
+                                  implicit=True, connects=[['/', '/a']],
+                                  max_sid=3, auths=['val'])
 CONFIGS['cstate_quick'] = dict(_ST, hkind='fn', max_sid=3,
                                auths=['val'])
 _AK = dict(ns_h=['/', '/a'], ns_all=['/', '/a'], connects=[['/', '/a']],
